@@ -289,6 +289,12 @@ impl Context {
     Ok(())
   }
 
+  /// Verification hook: number of actors the context's WaitGroup still counts as running.
+  #[cfg(rzmq_verif)]
+  pub fn verif_live_actors(&self) -> usize {
+    self.inner.actor_wait_group.get_count()
+  }
+
   /// Internal helper to get the `Arc<ContextInner>`.
   /// Used by `SocketCore` and other internal components to access shared context state.
   pub(crate) fn inner(&self) -> &Arc<ContextInner> {
